@@ -192,7 +192,8 @@ def runScript (f : Facts) (sc : Scen) : Json := Id.run do
     ("stuck", Json.num (JsonNumber.fromNat (b2n s.watcher + b2n s.closeWaiter))),
     ("readers", Json.num (JsonNumber.fromNat (b2n s.reader))),
     ("child", Json.num (JsonNumber.fromNat (b2n s.child))),
-    ("streams", Json.num (JsonNumber.fromNat (b2n s.stream)))]
+    ("streams", Json.num (JsonNumber.fromNat (b2n s.stream))),
+    ("answers", Json.num (JsonNumber.fromNat (b2n s.answerPost)))]
   -- the harness reports the calls that got an answer first, then the others (stdio: the child's arrival order is not visible)
   let outsL := outs.toList
   let shown := if sc.t = .stdio then outsL.filter (· == "ok") ++ outsL.filter (· != "ok") else outsL
@@ -204,7 +205,8 @@ def ledgerJson (s : St) (idx : List Nat) : Json :=
     ("stuck", Json.num (JsonNumber.fromNat (b2n s.watcher + b2n s.closeWaiter))),
     ("readers", Json.num (JsonNumber.fromNat (b2n s.reader))),
     ("child", Json.num (JsonNumber.fromNat (b2n s.child))),
-    ("streams", Json.num (JsonNumber.fromNat (b2n s.stream)))]
+    ("streams", Json.num (JsonNumber.fromNat (b2n s.stream))),
+    ("answers", Json.num (JsonNumber.fromNat (b2n s.answerPost)))]
 
 /-- A handshake script: the initialize request is call 0; `step` says where the handshake fails; then Close() — after
     the failed (or successful) Initialize has returned, or while it is in flight (the peer answers after the Close).
@@ -288,6 +290,27 @@ def runServerReq (f : Facts) (ends : List String) : Json := Id.run do
   let pending := ((List.range ends.length).filter (fun c => (s.calls c).inTable)).length
   return Json.mkObj [("calls", Json.arr (outs.map Json.str)), ("pending", Json.num (JsonNumber.fromNat pending))]
 
+/-- A retrying client: the first attempt of call 0 has failed with a retryable error and the call is backing off — a wait
+    over {back-off timer, caller's context} (`selCtx` includes the regenerated fact about `retry.Execute`'s wait).
+    `when`: during (the caller's context ends during the back-off) | before / after (… while the first / the second attempt
+    is in flight) | answered (the second attempt is answered). -/
+def runBackoff (f : Facts) (t : Transport) (when_ : String) : Json := Id.run do
+  let cfg : Cfg := { t := t }
+  let sc : Scen := { t := t, fr := .length, handlers := false, n := 1, answered := 0, fault := .none, pos := .frameEnd, ctx := "none",
+                     post := false, accept := false, afterInit := false, closeLive := false }
+  let mut s := apply f cfg (init cfg) [.issue 0]
+  if when_ == "answered" then s := apply f cfg s (answerFully sc 0)
+  else s := apply f cfg s [.ctxDone 0]
+  let (_, o) := finish f cfg s 0 false
+  return Json.mkObj [("call", Json.str (o.getD "hung"))]
+
+/-- A request of the server arrives on the client's stream; the client starts the POST with its answer, the peer stalls on
+    it; then Close(). -/
+def runSrvAnswer (f : Facts) (t : Transport) : Json := Id.run do
+  let cfg : Cfg := { t := t, getSSE := t.http }
+  let s := apply f cfg (init cfg) [.starterRun, .srvRequest, .closeBegin, .closeEnd, .readerExit, .watcherExit, .closeWaitExit]
+  return Json.mkObj [("ledger", ledgerJson s [])]
+
 def handle (op : String) (j : Json) : Except String Json := do
   let tb := Mcp.Gen.CallFacts.clTables
   match op with
@@ -301,6 +324,12 @@ def handle (op : String) (j : Json) : Except String Json := do
   | "handshake" =>
     let t ← transportOf (← getStr j "t")
     pure (runHandshake (factsOf tb t) t (← getStr j "step") ((← getStr j "close") == "during") (← getBool j "getSSE"))
+  | "backoff" =>
+    let t ← transportOf (← getStr j "t")
+    pure (runBackoff (factsOf tb t) t (← getStr j "when"))
+  | "srvAnswer" =>
+    let t ← transportOf (← getStr j "t")
+    pure (runSrvAnswer (factsOf tb t) t)
   | "serverReq" =>
     let sv ← serverOf (← getStr j "server")
     let ends ← (← getArr j "ends").toList.mapM (fun x => match x with | Json.str s => pure s | _ => throw "ends: string expected")
@@ -313,7 +342,7 @@ def handle (op : String) (j : Json) : Except String Json := do
     let okN := if (s.calls 0).returned = some .ok then k else 0
     pure (Json.mkObj [("ok", Json.num (JsonNumber.fromNat okN)),
       ("ledger", Json.mkObj [("bodies", Json.num 0), ("stuck", Json.num (JsonNumber.fromNat (k * (b2n s.watcher + b2n s.closeWaiter)))),
-        ("readers", Json.num (JsonNumber.fromNat (k * b2n s.reader))), ("child", Json.num (JsonNumber.fromNat (k * b2n s.child))), ("streams", Json.num 0)])])
+        ("readers", Json.num (JsonNumber.fromNat (k * b2n s.reader))), ("child", Json.num (JsonNumber.fromNat (k * b2n s.child))), ("streams", Json.num 0), ("answers", Json.num 0)])])
   | "getAfterClose" =>
     let f := factsOf tb .streamJson
     let cfg : Cfg := { t := .streamJson, getSSE := true }
